@@ -117,7 +117,7 @@ myth_tls_call_destructors_rec(myth_tls_tree_node_t * n,
     for (i = 0; i < myth_tls_tree_node_n_entries_in_leaf; i++, k++) {
       void * val = n->entries[i].value;
       void (*destructor)(void *) = ka->keys[k].destructor;
-      if (destructor) {
+      if (destructor && (val || !ka->keys[k].posix)) {
 	n->entries[i].value = 0;
 	destructor(val);
 	s++;
@@ -286,6 +286,7 @@ myth_tls_key_allocator_alloc(myth_tls_key_allocator_t * s,
 	MYTH_VERIF_POINT(mythv_p_key_mark, ke->next);
 	ke->next = (myth_tls_key_entry_t *)-1;
 	ke->destructor = destructor;
+	ke->posix = 0;
 	myth_spin_unlock_body(&s->lock);
 	return ke - s->keys;
       }
@@ -335,6 +336,18 @@ static inline int myth_key_create_body(myth_key_t * key,
     *key = k;
     return 0;
   }
+}
+
+/* pthread_key_create: as myth_key_create, except that, as POSIX
+   specifies, the destructor is not called for a thread whose
+   value under the key is NULL */
+static inline int myth_key_create_posix_body(myth_key_t * key,
+					     myth_tls_destructor_fun_t destructor) {
+  int r = myth_key_create_body(key, destructor);
+  if (r == 0) {
+    g_myth_tls_key_allocator->keys[*key].posix = 1;
+  }
+  return r;
 }
 
 static inline int myth_key_delete_body(myth_key_t key) {
